@@ -40,6 +40,7 @@ def run(chk, tier):
     evars = prog.variant_names(ERR)
     from ..report import run_sub
     run_sub(chk, 'c07', 'C07.', {'R3'})
+    run_sub(chk, 'c06', 'C06.', {'R2'})      # "re-issues the probe under the next sequence number with the same TTL": the ttl effects of issue / re-issue
     # termination: every round ends at the time limit at the latest, whatever the network does (publish policy table of update_round)
     run_sub(chk, 'c08', 'C08.', {'R1', 'R1e', 'R5'})
 
